@@ -170,6 +170,11 @@ class Gen:
         self.real_vars = real_vars and self.family_name != "bool"
         self.allow = allow
         self.fresh_names = 0
+        # names of values stored as bounded *integers* (index tensors, Bint
+        # variables and what is derived from them).  Typing discipline of the
+        # workload: only these are used as indices, and they are never fed to
+        # and/or/xor/invert, whose carrier is numpy booleans (C02's side condition).
+        self.intvals = set()
 
     # -- helpers ------------------------------------------------------------
     def new_name(self):
@@ -200,6 +205,10 @@ class Gen:
             return None
         self.types[op["out"]] = val
         self.program.append(op)
+        if val.output.dtype != "real":
+            src = op.get("a")
+            if (op["op"] == "tensor" and str(op["dtype"]).startswith("int")) or op["op"] == "var" or (src in self.intvals):
+                self.intvals.add(op["out"])
         return op["out"]
 
     def consistent(self, op):
@@ -254,8 +263,14 @@ class Gen:
 
     def is_family_value(self, v):
         if self.family_name == "bool":
-            return v.output.dtype == 2
+            return v.output.dtype == 2 and not self._is_int(v)
         return v.output.dtype == "real"
+
+    def _is_int(self, v):
+        return any(self.types.get(n) is v for n in self.intvals)
+
+    def pick_index(self, size):
+        return self.pick(lambda v: v.output.dtype == size and v.output.shape == () and self._is_int(v))
 
     # -- leaves -------------------------------------------------------------
     def leaf_tensor(self, index_valued=False):
@@ -386,7 +401,7 @@ class Gen:
                         self.fresh_names += 1
                         subs.append([n, ["name", "r%d" % self.fresh_names]])
                 elif c < 0.9:
-                    b = self.pick(lambda v: v.output.dtype == d.size and v.output.shape == ())
+                    b = self.pick_index(d.size)
                     if b is None:
                         b = self._index_value(d.size)
                     if b is None:
@@ -408,7 +423,7 @@ class Gen:
             size = self.types[a].output.shape[0]
             if r.random() < 0.5:
                 return self.emit({"op": "getitem", "a": a, "index": ["int", r.randrange(size)]})
-            b = self.pick(lambda v: v.output.dtype == size and v.output.shape == ())
+            b = self.pick_index(size)
             if b is None:
                 b = self._index_value(size)
             if b is None:
